@@ -7,6 +7,7 @@ import vlib
 FAMILY = {
     "C04": "fam_replay", "C05": "fam_replay",
     "C06": "fam_buffer", "C07": "fam_buffer",
+    "C09": "fam_deadline",
 }
 
 
